@@ -8,7 +8,7 @@ use refimpl::wire::{self, DataBody, FpUpdate, InputEvent, Rect};
 use serde::{Deserialize, Serialize};
 
 pub const LEVEL: &str = "exploration";
-pub const RULE: &str = "case = history of 1..40 steps over {pointer(x, y, button, down), key(code, down), unsendable event (RdpEvent::Bitmap), server traffic (fast-path bitmap, set-error-info)} submitted through write or try_write on an activated session with a generated user id / share id. Oracle: the reference server's strictly decoded list of slow-path input PDUs equals the submitted sendable events one to one and in order: one PDU per event, numEvents = 1, message type 0x8001 / 0x0004, exact x / y / scancode, button flags Left/Right/Middle = 0x1000/0x2000/0x4000 with DOWN (0x8000) iff down, no button = MOVE (0x0800) without button bits, RELEASE (0x8000) iff key up; MCS initiator / channel / share id as negotiated; unsendable kinds return Err and write zero bytes. button-matrix enumerates all 8 button x state combinations at boundary coordinates, and input before / after 1..3 reactivations with fresh share ids (the input PDUs must carry the share id of the latest demand-active) against 8 server variants (reported RDP version); all-values sends every scancode 0..=0xFFFF (press and release) and every value 0..=0xFFFF as x and as y coordinate (256 values per session, write and try_write mixed); after-server-updates sends every fast-path update code 0..15 (pointer position, hidden / default pointer, cached pointer ..., alone or batched after a bitmap) and then events that echo its contents (a move to exactly the position the server set, the same values as scancodes); generated histories do the same with probability; long-histories are sessions of 3000 events with exact repetitions, interleaved server traffic and refused events; generated histories repeat the previous event 1..3 times with probability 1/6. Non-trivial = history with >= 2 sendable events; distinct by hash of the case.";
+pub const RULE: &str = "case = history of 1..40 steps over {pointer(x, y, button, down), key(code, down), unsendable event (RdpEvent::Bitmap), server traffic (fast-path bitmap, set-error-info)} submitted through write or try_write on an activated session with a generated user id / share id. Oracle: the reference server's strictly decoded list of slow-path input PDUs equals the submitted sendable events one to one and in order: one PDU per event, numEvents = 1, message type 0x8001 / 0x0004, exact x / y / scancode, button flags Left/Right/Middle = 0x1000/0x2000/0x4000 with DOWN (0x8000) iff down, no button = MOVE (0x0800) without button bits, RELEASE (0x8000) iff key up; MCS initiator / channel / share id as negotiated; unsendable kinds return Err and write zero bytes. button-matrix enumerates all 8 button x state combinations at boundary coordinates, and input before / after 1..3 reactivations with fresh share ids (the input PDUs must carry the share id of the latest demand-active) against 8 server variants (reported RDP version); all-values sends every scancode 0..=0xFFFF (press and release) and every value 0..=0xFFFF as x and as y coordinate (256 values per session, write and try_write mixed); neighbourhoods-and-hiccups: press / release / move pairs at every offset within +-3 pixels for every button, and transient transport errors of every kind between events (the event whose write fails is lost with its error, the events after it are transmitted exactly, one per PDU); after-server-updates sends every fast-path update code 0..15 (pointer position, hidden / default pointer, cached pointer ..., alone or batched after a bitmap) and then events that echo its contents (a move to exactly the position the server set, the same values as scancodes); generated histories do the same with probability; long-histories are sessions of 3000 events with exact repetitions, interleaved server traffic and refused events; generated histories repeat the previous event 1..3 times with probability 1/6. Non-trivial = history with >= 2 sendable events; distinct by hash of the case.";
 
 #[derive(Serialize, Deserialize, Hash, Clone, Debug)]
 pub enum Step {
@@ -19,6 +19,9 @@ pub enum Step {
     ServerError(u32),
     /// a fast-path update other than a bitmap (pointer position / hidden / default / cached / new, palette, synchronize ...), possibly batched after a bitmap
     ServerUpdate { code: u8, body: Vec<u8>, with_bitmap: bool },
+    /// the transport refuses the client's next write once (error kind index, 255 = WouldBlock): the event submitted next fails
+    /// (or, if the client does not write for it, succeeds); later events must be transmitted exactly as submitted
+    TransportHiccup { kind: u8 },
     /// deactivate-all, then a demand-active with this share id and the complete handshake: later input must carry the new id
     Reactivate { share_id: u32 },
 }
@@ -74,12 +77,19 @@ pub fn run(c: &Case) -> Outcome {
     let mut share_now = c.share_id;
     for (i, st) in c.steps.iter().enumerate() {
         want_share.resize(want.len(), share_now);
+        let hiccups_before = h.borrow().fail_writes.len();
         let before = h.borrow().transcript.len();
         match st {
+            Step::TransportHiccup { kind } => {
+                out.label("transport-hiccup");
+                h.borrow_mut().fail_writes.push(*kind);
+            }
             Step::Pointer { x, y, button: b, down, lenient } => {
                 let ev = RdpEvent::Pointer(PointerEvent { x: *x, y: *y, button: button(*b), down: *down });
                 let (r, _) = call(|| if *lenient { conn.client.try_write(ev) } else { conn.client.write(ev) });
                 match r {
+                    // the transport refused this write: the event is lost with the error, which is fine; it must not come back later
+                    Res::Err(_) if h.borrow().fail_writes.len() < hiccups_before => {}
                     Res::Ok(()) => want.push(st),
                     Res::Err(e) => {
                         out.fail("input:write-error", format!("step #{} {:?} on an active session failed: {}", i, st, e));
@@ -95,6 +105,7 @@ pub fn run(c: &Case) -> Outcome {
                 let ev = RdpEvent::Key(KeyboardEvent { code: *code, down: *down });
                 let (r, _) = call(|| if *lenient { conn.client.try_write(ev) } else { conn.client.write(ev) });
                 match r {
+                    Res::Err(_) if h.borrow().fail_writes.len() < hiccups_before => {}
                     Res::Ok(()) => want.push(st),
                     Res::Err(e) => {
                         out.fail("input:write-error", format!("step #{} {:?} on an active session failed: {}", i, st, e));
@@ -128,6 +139,8 @@ pub fn run(c: &Case) -> Outcome {
             Step::Reactivate { share_id } => {
                 {
                     let mut s = h.borrow_mut();
+                    // (a pending transport error would hit the handshake instead of an input event: not this scenario)
+                    s.fail_writes.clear();
                     // what the client wrote so far belongs to the old share: let the server read it first
                     s.pump();
                     let su = s.server.profile.server_user;
@@ -372,6 +385,21 @@ pub fn decode(s: &mut Src) -> Case {
                 continue;
             }
         }
+        // a release (or another event) within a few pixels of the previous pointer event, same button
+        if let Some(Step::Pointer { x, y, button, down, .. }) = steps.last().cloned() {
+            if s.chance(40) {
+                let dx = s.below(7) as i32 - 3;
+                let dy = s.below(7) as i32 - 3;
+                let nx = (x as i32 + dx).clamp(0, 65535) as u16;
+                let ny = (y as i32 + dy).clamp(0, 65535) as u16;
+                steps.push(Step::Pointer { x: nx, y: ny, button: if s.chance(200) { button } else { s.below(4) as u8 }, down: if s.chance(200) { !down } else { down }, lenient: s.chance(32) });
+                continue;
+            }
+        }
+        if s.chance(6) {
+            steps.push(Step::TransportHiccup { kind: s.pick(&[255u8, 0, 1, 2, 5]) });
+            continue;
+        }
         steps.push(match s.below(13) {
             0 => Step::Unsendable { lenient: s.bool() },
             1 => Step::ServerBitmap,
@@ -461,6 +489,39 @@ fn after_server_updates() -> Vec<Case> {
     v
 }
 
+/// press / release (and move) pairs at every offset within +-3 pixels for every button; transport hiccups of every kind
+/// between events
+fn neighbourhoods() -> Vec<Case> {
+    let mut v = Vec::new();
+    for b in 0..4u8 {
+        let mut steps = Vec::new();
+        for dx in -3i32..=3 {
+            for dy in -3i32..=3 {
+                for (d1, d2) in [(true, false), (false, true), (true, true)] {
+                    steps.push(Step::Pointer { x: 500, y: 400, button: b, down: d1, lenient: false });
+                    if (dx + dy) % 3 == 0 {
+                        steps.push(Step::Key { code: 42, down: true, lenient: false });
+                    }
+                    steps.push(Step::Pointer { x: (500 + dx) as u16, y: (400 + dy) as u16, button: b, down: d2, lenient: false });
+                }
+            }
+        }
+        v.push(Case { steps, user_id: 1004, share_id: 0x000103EA, variant: 0 });
+    }
+    for kind in [255u8, 0, 1, 2, 3, 4, 5, 6, 7, 8, 9] {
+        let mut steps = Vec::new();
+        for k in 0..6u16 {
+            steps.push(Step::Key { code: 30 + k, down: true, lenient: false });
+            steps.push(Step::TransportHiccup { kind });
+            steps.push(if k % 2 == 0 { Step::Key { code: 50 + k, down: true, lenient: k % 4 == 0 } } else { Step::Pointer { x: k, y: k, button: 1, down: true, lenient: false } });
+            steps.push(Step::Pointer { x: 10 * k, y: 7, button: 0, down: false, lenient: false });
+            steps.push(Step::Key { code: 30 + k, down: false, lenient: false });
+        }
+        v.push(Case { steps, user_id: 1004, share_id: 0x000103EA, variant: 0 });
+    }
+    v
+}
+
 fn long_histories() -> Vec<Case> {
     let mut v = Vec::new();
     // more events than a 16-bit counter holds
@@ -523,6 +584,7 @@ pub fn check(rep: &Report) {
     rep.list("button-matrix", matrix(), run);
     rep.enumerate("all-values", true, all_values, run);
     rep.list("long-histories", long_histories(), run);
+    rep.list("neighbourhoods-and-hiccups", neighbourhoods(), run);
     rep.list("after-server-updates", after_server_updates(), run);
     rep.random("histories", rep.tier.n(60_000, 3_000_000), 260, decode, run);
     crate::tls::pki();
@@ -530,5 +592,6 @@ pub fn check(rep: &Report) {
     rep.require("histories", "interleaved-server-traffic", 1000);
     rep.require("histories", "unsendable", 1000);
     rep.require("histories", "reactivation", 1000);
+    rep.require("histories", "transport-hiccup", 1000);
     rep.require("histories", "other-server-profile", 1000);
 }
